@@ -15,6 +15,7 @@
  *   rc=<rc> n=<num_timers> d=<rat_depth> o=<numobjs> [H <id at slot 1..n>] [I <id>:<index> ...] [R <root id>] [F <fired ids>]
  */
 #include <stdio.h>
+#include <unistd.h>
 #include <stdlib.h>
 #include <string.h>
 #include <iv.h>
@@ -176,6 +177,10 @@ int main(void)
 		int first = 1;
 		int quiet = 0;
 		int i;
+
+		/* watchdog per case: a run-away loop in the library must not stall the whole check (the runner
+		   records the unanswered case as crashed and resumes after it) */
+		alarm(30);
 
 		line[strcspn(line, "\n")] = 0;
 		nknown = 0;
